@@ -19,37 +19,37 @@ T = {
             'memo short-circuit; registry hit returns the registered object', 'run counts over histories and across processes',
             'call-graph reachability with receiver-class specialisation + CFG dominance', '3 C04'),
     'C05': ('the visible path of every data class is created only by an atomic rename that follows all writes to the temporary; the failure handler of Task.data resets state, calls on_run_error and re-raises on every exceptional path; '
-            'type check dominates save; failed work directories are renamed aside, resumable ones never deleted on init',
+            'type check dominates save; failed work directories are renamed aside, resumable ones never deleted on init; every attempt starts from an empty temporary (work dirs wiped, files opened truncating)',
             'torn writes inside third-party serialisers, fsync durability, equality of the recomputed value', 'effect summaries with symbolic path targets + CFG must-pass-through on exception edges', '3 C05'),
-    'C06': ('writer/reader codec, path, mode and order agree per data class and per file-cache class; load/exists/value are write-free; unset tests are identity tests',
+    'C06': ('writer/reader codec, path, mode and order agree per data class and per file-cache class; load/exists/value are write-free; unset tests are identity tests; the serialiser receives the stored value itself; serialisers and parsers keep no state',
             'value fidelity inside orjson / numpy / pandas / pickle (dtypes, unicode, NaN, 64-bit boundaries)', 'sibling cross-check of save/load pairs + effect summaries', '3 C06'),
-    'C07': ('forced flag is a conjunct of the load guard; Task.force postcondition on all paths; edge orientation x closure direction = downstream; flags forwarded to the whole closure; delete() removes exactly the visible path',
-            'run counts over request orders', 'CFG guards + API-semantics table for graph closures + effect targets', '3 C07'),
+    'C07': ('forced flag is a conjunct of the load guard; Task.force postcondition on all paths; edge orientation x closure direction = downstream; flags forwarded to the whole closure (value term of the forced set); delete() removes exactly the visible path; publishing replaces the stored result as a whole; the forced flag is cleared only after success',
+            'run counts over request orders', 'CFG guards + symbolic term of the forced set + API-semantics table for graph closures + effect targets', '3 C07'),
     'C08': ('acyclicity and missing-input gates on every construction path (all _prepare overrides); exclusion before registration; structured-name tests are segment-wise; inputs resolved namespace-exact',
             'edge identity for every configuration (needs the resolver run on concrete name sets)', 'CFG must-pass-through + name-kind lint', '3 C08'),
     'C09': ('context order global then namespace, deep-copied; exact namespace equality; propagation to used configs; required/dtype gates; conflict test is a real comparison; first pass does not share task objects across namespaces',
             'resulting values for every config tree; YAML/JSON parsing', 'CFG ordering + taint (deepcopy sanitiser) + degenerate-equality class analysis + sibling cross-check', '3 C09'),
     'C10': ('suffix priority is separator-aware; ambiguity and absence raise on every path; no positional pick; every access path routes through the one resolver and converts exactly KeyError',
             'the full resolution table over all name sets', 'name-kind lint + CFG raise discipline + call-graph must-reach', '3 C10'),
-    'C11': ('traversal reaches every list/dict depth and only strings; idempotence guard dominates substitution; undefined placeholder restored verbatim; lazy regex; substitution after context, before objects; repr encoded once',
-            'regex behaviour on every string', 'structural rules on the traversal + regex AST + encoding-level (units) analysis + CFG ordering', '3 C11'),
+    'C11': ('traversal reaches every list/dict depth and only strings; idempotence guard dominates substitution; undefined placeholder restored verbatim; lazy regex; substitution after context, before objects; repr encoded once; no exact-type test on config-derived (possibly substituted) strings; substitution results on bare strings are kept',
+            'regex behaviour on every string', 'CFG rules on the traversal + symbolic term of the replacement callback by lookup mode + regex AST + encoding-level (units) analysis + CFG ordering + taint of config-derived values', '3 C11'),
     'C12': ('the symbolic terms of key, directory, file name, extension and side-file derivation equal the frozen 1.4.0 reference terms',
             'nothing structural; residual risk is the normaliser fragment (differences it cannot interpret are UNDECIDED)', 'symbolic term equality against frozen reference terms (Merkle DAG)', '3 C12'),
-    'C13': ('one registry object reaches every member chain and both passes; registry key = (task, storage key); force fans out over all chains', 'value equality with standalone chains',
-            'def-use of the shared registry + sibling rules', '3 C13'),
+    'C13': ('one registry object reaches every member chain and both passes; registry key = (task, storage key) and the storage key covers every input; registry hit / miss by cases on the value term; force fans out over all chains with its arguments unchanged', 'value equality with standalone chains',
+            'def-use of the shared registry + symbolic value term of _create_task by cases + CFG loop rules', '3 C13'),
     'C14': ('compute precedes save and nothing is saved on its exceptional exit; key-mismatch error propagates, other load errors fall through to recompute; full digest in the file name; force reaches the guard; get never computes',
             'value round trip; behaviour on every truncation (library level)', 'CFG handler-order and must-pass-through rules + path term', '3 C14'),
-    'C15': ('every cache-file write happens under the key\'s lock; the existence check and the load it guards share one critical section; same lock identity in all entry points',
-            'real interleavings; OS-level lock semantics (trusted)', 'lockset analysis over the CFG', '3 C15'),
+    'C15': ('every cache-file write happens under the key\'s lock; the existence check and the load it guards share one critical section; same lock identity in all entry points; every load holds the lock; the lock is a blocking, per-thread OS-level FileLock',
+            'real interleavings; OS-level lock semantics (trusted)', 'lockset analysis (lock identity and configuration from the symbolic term of the with-item, also through helpers)', '3 C15'),
     'C16': ('positional-to-keyword normalisation with consistent offsets, defaults filled, ignored names removed, sorted serialisation; sub-cache name = method[.version]; control keywords routed',
             'JSON distinguishability of arbitrary argument values; call counts', 'idiom rule over the normalisation loop + def-use', '3 C16'),
     'C17': ('completion-ordered results pass an index sort before return on the sorted path; fun has exactly one call site per path and no try swallows its exception; chunk idiom well-formed',
-            'actual schedules; exactly-once under executor semantics', 'taint (completion order -> return, sanitiser = index sort) + idiom rules', '3 C17'),
+            'actual schedules; exactly-once under executor semantics', 'taint on the symbolic value term (source as_completed, sanitiser index sort not crossed by a loop binder) + CFG rules for chunked', '3 C17'),
     'C18': ('the run-scoped log handler is removed on every exit of Task.data; run info initialised before run, written only after a successful save; truncating log mode; record fields present',
             'log and record contents over histories', 'CFG pairing rule on normal and exceptional exits + dominance', '3 C18'),
     'C19': ('TestChain._prepare keeps the base pipeline stages in order; mocks are in-memory, return the stored value and have no RUN/FS effect; real tasks go through _create_task',
             'the differential equality of values', 'override consistency cross-check + effect summary', '3 C19'),
-    'C20': ('every mutating effect of migration targets the new chain; copies are src=old, dst=new under not dry and has_data guards; config identity (path and part) propagated',
+    'C20': ('every mutating effect of migration targets the new chain; copies are src=old, dst=new under not dry and has_data guards; config identity (path and part) propagated; a task is skipped only for a legitimate reason; the name-mode identifier keeps the parts of a file apart',
             'equality of migrated values', 'effect summaries with receiver-substituted targets + CFG guards', '3 C20'),
 }
 
